@@ -5,14 +5,23 @@
    agree everywhere else — whatever the two sides' tables Bf1, Bf2 are. *)
 Require Import Calc.Sem.
 Require Import Calc.Base Calc.Bytecode Calc.Value Calc.FloatText Calc.Ast Calc.Compile Calc.VM
-        Calc.ExprSem Calc.ExprVM Calc.ExprCorrect Calc.ExprTop Calc.ExprAssign Calc.ExprLen Calc.ExprSession Calc.StmtSem.
+        Calc.ExprSem Calc.ExprVM Calc.ExprCorrect Calc.ExprTop Calc.ExprAssign Calc.ExprLen Calc.ExprSession Calc.LExprSem Calc.StmtSem.
 Require Import Lia.
 Open Scope Z_scope.
 
-Definition is_bname (g : string) : bool :=
-  match bop_of_name g with Some _ => true | None => String.eqb g "read" end.
+Section Rel.
+Variables Bf1 Bf2 : ftab.
+(* the two sides know the same user functions *)
+Hypothesis Hbody : forall nm, ft_body Bf1 nm = ft_body Bf2 nm.
 
-(* an expression that does not mention a built-in name *)
+(* the names of functions: the built-ins and the user functions of the table *)
+Definition is_bname (g : string) : bool :=
+  match bop_of_name g with
+  | Some _ => true
+  | None => String.eqb g "read" || match ft_body Bf1 g with Some _ => true | None => false end
+  end.
+
+(* an expression that does not mention a function name *)
 Fixpoint nobe (e : node) : bool :=
   match e with
   | NName g => negb (is_bname g)
@@ -24,7 +33,7 @@ Fixpoint nobe (e : node) : bool :=
   | _ => true
   end.
 
-(* a statement that mentions built-in names only as the callee of nm(e) *)
+(* a statement that mentions function names only as the callee of nm(e) *)
 Fixpoint nobs (t : node) : bool :=
   match t with
   | NAssign (NName g) e => negb (is_bname g) && (if pure e then nobe e else nobs e)
@@ -58,6 +67,24 @@ Proof.
     apply andb_prop in H12. destruct H12 as [H1 H2]. cbn [den]. rewrite (IHa H1), (IHf H2), (IHt H3). reflexivity.
 Qed.
 
+Lemma lden_same L G1 G2 : gsame G1 G2 -> forall e, lpure L e = true -> nobe e = true -> lden L G1 e = lden L G2 e.
+Proof.
+  intros HG. apply (lpure_induction L (fun e => nobe e = true -> lden L G1 e = lden L G2 e)); try reflexivity.
+  - intros g Hn. cbn [nobe] in Hn. cbn [lden]. rewrite (HG g); [reflexivity|]. destruct (is_bname g); [discriminate Hn|reflexivity].
+  - intros op c l r Hc _ _ IHl IHr Hn. cbn [nobe] in Hn. apply andb_prop in Hn. destruct Hn as [H1 H2].
+    cbn [lden]. rewrite Hc, (IHl H1), (IHr H2). reflexivity.
+  - intros op t _ _ IHt Hn. cbn [nobe] in Hn. cbn [lden]. rewrite (IHt Hn). reflexivity.
+  - intros l _ HF Hn. cbn [nobe] in Hn. cbn [lden].
+    assert (E : seq_res (lden L G1) l = seq_res (lden L G2) l).
+    { induction HF as [|x r Hx Hr IH]; [reflexivity|]. cbn [forallb] in Hn. apply andb_prop in Hn. destruct Hn as [H1 H2].
+      cbn [seq_res]. rewrite (Hx H1), (IH H2). reflexivity. }
+    rewrite E. reflexivity.
+  - intros a i _ _ IHa IHi Hn. cbn [nobe] in Hn. apply andb_prop in Hn. destruct Hn as [H1 H2].
+    cbn [lden]. rewrite (IHa H1), (IHi H2). reflexivity.
+  - intros a f t _ _ _ IHa IHf IHt Hn. cbn [nobe] in Hn. apply andb_prop in Hn. destruct Hn as [H12 H3].
+    apply andb_prop in H12. destruct H12 as [H1 H2]. cbn [lden]. rewrite (IHa H1), (IHf H2), (IHt H3). reflexivity.
+Qed.
+
 Lemma gval_set_other G g x g' : g <> g' -> gval (sassoc_set G g x) g' = gval G g'.
 Proof.
   intros NE. unfold gval. induction G as [|[k w] r IH]; cbn [sassoc_set sassoc_get].
@@ -69,16 +96,16 @@ Qed.
 
 (* the two worlds: equal off the built-in names; the built-in names bound as the two tables say; the
    same output written since the two sides held o1 and o2 (o1 = o2 = []: the same output altogether) *)
-Record wrel (Bf1 Bf2 : string -> value) (o1 o2 : list string) (W1 W2 : world) : Prop := {
+Record wrel (o1 o2 : list string) (W1 W2 : world) : Prop := {
   wr_glob : gsame (w_glob W1) (w_glob W2);
   wr_out : exists d, w_out W1 = d ++ o1 /\ w_out W2 = d ++ o2;
   wr_in : w_in W1 = w_in W2;
   wr_b : forall nm, is_bname nm = true ->
-           fun_eqb (gval (w_glob W1) nm) (Bf1 nm) = fun_eqb (gval (w_glob W2) nm) (Bf2 nm) }.
+           fun_eqb (gval (w_glob W1) nm) (ft_val Bf1 nm) = fun_eqb (gval (w_glob W2) nm) (ft_val Bf2 nm) }.
 
-Lemma wrel_glob Bf1 Bf2 o1 o2 W1 W2 g x :
-  wrel Bf1 Bf2 o1 o2 W1 W2 -> is_bname g = false ->
-  wrel Bf1 Bf2 o1 o2 (wglob W1 (sassoc_set (w_glob W1) g x)) (wglob W2 (sassoc_set (w_glob W2) g x)).
+Lemma wrel_glob o1 o2 W1 W2 g x :
+  wrel o1 o2 W1 W2 -> is_bname g = false ->
+  wrel o1 o2 (wglob W1 (sassoc_set (w_glob W1) g x)) (wglob W2 (sassoc_set (w_glob W2) g x)).
 Proof.
   intros [Hg Ho Hi Hb] Hn. constructor; cbn [wglob w_glob w_out w_in]; try assumption.
   - intros g' Hg'. destruct (String.eqb_spec g g') as [->|NE]; [rewrite !gval_set_same; reflexivity|].
@@ -87,26 +114,29 @@ Proof.
     rewrite !gval_set_other by exact NE. exact (Hb nm Hnm).
 Qed.
 
-Lemma bop_sem_rel Bf1 Bf2 o1 o2 b W1 W2 x :
-  wrel Bf1 Bf2 o1 o2 W1 W2 ->
-  snd (bop_sem b W1 x) = snd (bop_sem b W2 x) /\ wrel Bf1 Bf2 o1 o2 (wbump (fst (bop_sem b W1 x))) (wbump (fst (bop_sem b W2 x))).
+Lemma bop_sem_rel o1 o2 b W1 W2 x :
+  wrel o1 o2 W1 W2 ->
+  snd (bop_sem b W1 x) = snd (bop_sem b W2 x) /\ wrel o1 o2 (wbump (fst (bop_sem b W1 x))) (wbump (fst (bop_sem b W2 x))).
 Proof.
   intros [Hg Ho Hi Hb]. destruct b; cbn [bop_sem fst snd]; (split; [reflexivity|]);
     constructor; cbn [wbump wwrite w_glob w_out w_in]; try assumption.
   destruct Ho as [d0 [E1 E2]]. exists (to_string fmt_float x :: d0). rewrite E1, E2. split; reflexivity.
 Qed.
 
-Theorem ssem_related Bf1 Bf2 o1 o2 : forall n t W1 W2 W1' r,
-  wstmt t = true -> nobs t = true -> wrel Bf1 Bf2 o1 o2 W1 W2 ->
+(* the bodies of the user functions do not read function names as data either *)
+Hypothesis Hnob : forall nm body, ft_body Bf1 nm = Some body -> nobe body = true.
+
+Theorem ssem_related o1 o2 : forall n t W1 W2 W1' r,
+  wstmt t = true -> nobs t = true -> wrel o1 o2 W1 W2 ->
   ssem Bf1 n W1 t = Some (W1', r) ->
-  exists W2', ssem Bf2 n W2 t = Some (W2', r) /\ wrel Bf1 Bf2 o1 o2 W1' W2'.
+  exists W2', ssem Bf2 n W2 t = Some (W2', r) /\ wrel o1 o2 W1' W2'.
 Proof.
   induction n as [|n IH]; intros t W1 W2 W1' r Hw Hn HR Hs; [discriminate Hs|].
   pose proof HR as [Hg Ho Hi Hb].
   assert (Pure : pure t = true -> nobe t = true ->
             (if Nat.leb (height t) (S n) then Some (W1, den (w_glob W1) t) else None) = Some (W1', r) ->
             exists W2', (if Nat.leb (height t) (S n) then Some (W2, den (w_glob W2) t) else None) = Some (W2', r) /\
-                        wrel Bf1 Bf2 o1 o2 W1' W2').
+                        wrel o1 o2 W1' W2').
   { intros Hp Hnb H. destruct (Nat.leb (height t) (S n)); [|discriminate H]. injection H as <- <-.
     exists W2. rewrite (den_same _ _ Hg t Hp Hnb). split; [reflexivity|exact HR]. }
   destruct t; try (apply Pure; [exact Hw|exact Hn|exact Hs]); try discriminate Hw.
@@ -130,7 +160,7 @@ Proof.
     rewrite ssem_while in Hs |- *. destruct (Nat.leb (height t1) n); [|discriminate Hs].
     clear Pure Hg Ho Hi Hb. revert Hs. generalize VNil. generalize n at 2 4. intros k. revert W1 W2 HR.
     induction k as [|k IHk]; intros W1 W2 HR last Hs; [discriminate Hs|]. cbn [swhile_of] in *.
-    rewrite <- (den_same _ _ (wr_glob _ _ _ _ _ _ HR) t1 Hc Hn1). destruct (cond_res (den (w_glob W1) t1)) as [[|]|e].
+    rewrite <- (den_same _ _ (wr_glob _ _ _ _ HR) t1 Hc Hn1). destruct (cond_res (den (w_glob W1) t1)) as [[|]|e].
     + destruct (ssem Bf1 n W1 t2) as [[W1a [v|e]]|] eqn:Eb; try discriminate Hs.
       * destruct (IH t2 W1 W2 W1a (Ok v) Hb' Hn2 HR Eb) as (W2a & E2 & HR2). rewrite E2.
         exact (IHk W1a W2a HR2 v Hs).
@@ -179,19 +209,35 @@ Proof.
       apply String.eqb_eq in Hw. subst n0.
       assert (Hbn : is_bname "read" = true) by reflexivity.
       rewrite <- (Hb "read" Hbn).
-      destruct (Nat.leb 1 n && fun_eqb (gval (w_glob W1) "read") (Bf1 "read")); [|discriminate Hs].
+      destruct (Nat.leb 1 n && fun_eqb (gval (w_glob W1) "read") (ft_val Bf1 "read")); [|discriminate Hs].
       injection Hs as <- <-. unfold read_sem. rewrite <- Hi.
       destruct (w_in W1) as [|l0 rest] eqn:Ein; cbn [fst snd].
       * eexists. split; [reflexivity|]. constructor; cbn [wbump w_glob w_out w_in]; try assumption.
         rewrite <- Hi, Ein. reflexivity.
       * eexists. split; [reflexivity|]. constructor; cbn [wbump w_glob w_out w_in]; try assumption. reflexivity.
     + cbn [wstmt is_bcall] in Hw. cbn [nobs] in Hn. cbn [ssem] in Hs |- *.
-      destruct (bop_of_name n0) as [b|] eqn:Eb; [|discriminate Hw].
+      destruct (bop_of_name n0) as [b|] eqn:Eb.
+      2:{ rewrite <- Hbody. destruct (ft_body Bf1 n0) as [body|] eqn:Ebody; [|discriminate Hs].
+          assert (Hbn : is_bname n0 = true) by (unfold is_bname; rewrite Eb, Ebody; apply orb_true_r).
+          rewrite <- (Hb n0 Hbn).
+          destruct (lpure1 body && Nat.leb (height a) n && Nat.leb (height body) n
+                    && fun_eqb (gval (w_glob W1) n0) (ft_val Bf1 n0)) eqn:Ec; [|discriminate Hs].
+          rewrite <- (den_same _ _ Hg a Hw Hn). destruct (den (w_glob W1) a) as [x|err].
+          - assert (Hlp : lpure [x] body = true).
+            { apply andb_prop in Ec. destruct Ec as [Ec _]. apply andb_prop in Ec. destruct Ec as [Ec _].
+              apply andb_prop in Ec. destruct Ec as [Ec _]. rewrite (lpure_len [x] [VNil] body eq_refl). exact Ec. }
+            rewrite <- (lden_same [x] _ _ Hg body Hlp (Hnob n0 body Ebody)).
+            destruct (lden [x] (w_glob W1) body) as [y|err].
+            + destruct (is_fun y); [discriminate Hs|]. injection Hs as <- <-. eexists. split; [reflexivity|].
+              constructor; cbn [wbump w_glob w_out w_in]; assumption.
+            + injection Hs as <- <-. eexists. split; [reflexivity|].
+              constructor; cbn [wbump w_glob w_out w_in]; assumption.
+          - injection Hs as <- <-. exists W2. split; [reflexivity|exact HR]. }
       assert (Hbn : is_bname n0 = true) by (unfold is_bname; rewrite Eb; reflexivity).
       rewrite <- (Hb n0 Hbn).
-      destruct (Nat.leb (height a) n && Nat.leb 2 n && fun_eqb (gval (w_glob W1) n0) (Bf1 n0)); [|discriminate Hs].
+      destruct (Nat.leb (height a) n && Nat.leb 2 n && fun_eqb (gval (w_glob W1) n0) (ft_val Bf1 n0)); [|discriminate Hs].
       rewrite <- (den_same _ _ Hg a Hw Hn). destruct (den (w_glob W1) a) as [x|err].
-      * injection Hs as <- <-. destruct (bop_sem_rel Bf1 Bf2 o1 o2 b W1 W2 x HR) as [E1 E2]. rewrite E1.
+      * injection Hs as <- <-. destruct (bop_sem_rel o1 o2 b W1 W2 x HR) as [E1 E2]. rewrite E1.
         eexists. split; [reflexivity|exact E2].
       * injection Hs as <- <-. exists W2. split; [reflexivity|exact HR].
   - (* NWrite *)
@@ -201,4 +247,4 @@ Proof.
       destruct Ho as [d0 [E1 E2]]. exists (to_string fmt_float x :: d0). rewrite E1, E2. split; reflexivity.
     + exists W2. split; [reflexivity|exact HR].
 Qed.
-
+End Rel.
